@@ -589,9 +589,56 @@ def nshards(tier):
     return 16
 
 
+EH_HOWS = ('constructor', 'set', 'set-then-add', 'set-twice', 'set-then-reset')
+
+
+def run_error_handlers(acc):
+    """Error handlers that bring a WSGI wrapper of their own (the stock REPLErrorHandler re-raises and relies on its
+    debugger wrapper to answer), installed every documented way: each request is still answered through
+    start_response, exactly once."""
+    import io
+    from clastic import Application
+    from clastic.errors import REPLErrorHandler, ErrorHandler
+    from werkzeug.wrappers import Response
+
+    def boom():
+        raise ValueError('boom')
+    for how in EH_HOWS:
+        routes = [('/boom', boom), ('/ok', lambda: Response('ok'))]
+        if how == 'constructor':
+            app = Application(routes, error_handler=REPLErrorHandler())
+        else:
+            app = Application(routes if how != 'set-then-add' else routes[:1])
+            app.set_error_handler(REPLErrorHandler())
+            if how == 'set-then-add':
+                app.add(routes[1])
+            if how == 'set-twice':
+                app.set_error_handler(ErrorHandler())
+                app.set_error_handler(REPLErrorHandler())
+            if how == 'set-then-reset':
+                app.set_error_handler()
+        for path in ('/boom', '/ok', '/nowhere', '/boom'):
+            for method in ('GET', 'HEAD'):
+                env = wsgi.make_environ(path, method)
+                env['wsgi.errors'] = io.StringIO()
+                r = call_validated(app, env)
+                acc.evaluated += 1
+                acc.transitions += 1
+                acc.validated += 1
+                acc.add('nontrivial')
+                acc.outcome('error-handler|%s|%s' % (how, (r['status'] or '???')[:3]))
+                case = {'part': 'error-handlers', 'how': how, 'path': path, 'method': method}
+                want = {'/boom': '500', '/ok': '200', '/nowhere': '404'}[path]
+                if r['error'] or r['sr_calls'] != 1 or (r['status'] or '')[:3] != want:
+                    acc.violation('C13:error-handler:%s:%s' % (r['kind'] or 'status', path.strip('/')), 'handler with a WSGI wrapper installed by %s: %s %s -> '
+                                  '%s, start_response called %d time(s), %s' % (how, method, path, r['status'], r['sr_calls'], r['error']), case)
+
+
 def shard(tier, i, n, seed):
     common.setup_repo()
     acc = common.Acc()
+    if i == 3 % n:
+        run_error_handlers(acc)
     run_kinds(acc, i, n, tier)
     run_wrappers(acc, i, n, tier)
     run_sibling_wrappers(acc, i, n, tier)
@@ -614,6 +661,10 @@ def finish(tier, merged, results):
 def replay(case):
     common.setup_repo()
     acc = common.Acc()
+    if case.get('part') == 'error-handlers':
+        run_error_handlers(acc)
+        bad = [v for v in acc.violations if v['case'] == case]
+        return (False, bad[0]['desc'][:2000]) if bad else (True, 'ok')
     part = case.get('part')
     if part == 'kinds':
         run_kinds(acc, 0, 1, 'quick')
